@@ -303,6 +303,23 @@ def obligations(tier, seed):
                     "content_length": m.get("content_length.present", "False") == "True", "limit": m.get("max_body_size", "1000")}
             r["replay"] = {"scenario": "c19_chunking", "args": args}
         out.append(r)
+    # ---- the same bytes with a (truthful) Content-Length header and without one
+    name = "header:content-length-present-vs-absent"
+    if bad1:
+        out.append(R.Result(engine="mirsym", name=name, kind="kernel", status="unsupported", detail=str(bad1[0])[:300], bodies=[b.name]))
+    else:
+        total = one.len[0]
+        fits = z3.ULT(total, z3.BitVecVal(1 << 32, 64))
+        with_h = lambda t: z3.substitute(t, (cl_present, z3.BoolVal(True)), (cl_value, z3.Extract(31, 0, total)))
+        without = lambda t: z3.substitute(t, (cl_present, z3.BoolVal(False)))
+        same = z3.And(with_h(ok1) == without(ok1), z3.Implies(without(ok1), z3.And(with_h(len1) == without(len1), with_h(single1) == without(single1))))
+        base = z3.And(one.valid(), fits, with_h(cov1), without(cov1))
+        r = R.decide(name, "kernel", z3.And(base, z3.Not(same)), [z3.And(base, without(ok1)), z3.And(base, z3.Not(without(ok1)))], bodies=[b.name],
+                     desc="read_body over the same bytes gives the same answer whether the request declares their length in a Content-Length header or not (e.g. chunked transfer): "
+                          "same accept/reject - in particular at exactly max_body_size bytes -, same bytes handed on, same single/batch decision",
+                     bounds="one chunk of any length < 2^31, any leading whitespace / first byte; limit any u32; header absent vs present with the true length",
+                     keydetail="content-length-changes-answer", replay=dict(scenario="c19_content_length", vars={}, fixed={}, region=z3.BoolVal(True)))
+        out.append(r)
     out.append(sniff_closure_obligation(core))
     out += _gate(srv)
     return out
@@ -414,7 +431,8 @@ def _gate(srv):
     else:
         res.append(R.decide("order:call_with_service:method-and-content-type-gate", "order", z3.Or(*viol), [z3.Or(*v) for v in reach.values()], bodies=[b.name],
                             desc="the body is read (and handle_rpc_call reached) only for POST with a JSON content type; any other method -> 405; POST with another content type -> 415",
-                            bounds="method and content-type verdicts arbitrary; every path of the request handler", keydetail="http-gate"))
+                            bounds="method and content-type verdicts arbitrary; every path of the request handler", keydetail="http-gate",
+                            replay=dict(scenario="c19_content_types", vars={}, fixed={}, region=z3.BoolVal(True))))
     # is_json: the spellings
     bj = R.find_body(srv, r"^fn is_json::\{closure#\d\}\(_1: \{closure@server/src/transport/http\.rs[^}]*\}, _2: &str\) -> bool")
     consts, ncalls = [], 0
